@@ -20,7 +20,7 @@ CHECKS = {
    text="1200 (quick) generated linked frames per build covering tiny to maximal blocks, matches reaching one and many blocks back, offset 65535, stored blocks and the 128 KiB trim threshold, each read 8 ways; plus the reference encoder's linked golden file. The evidence counts the cross-block matches, offset-65535 matches and stored blocks that were actually decoded.",
    ref="6/C16"),
  "C18": dict(cat="exploration", tech="per-call contract monitor on the real CompressingReader plus the independent strict frame parser on the concatenated output; read sizes enumerated as all cyclic triples over boundary classes derived from the frame layout; source fault enumeration",
-   text="For 96 (source, options) bases every triple of read-size classes (including sizes that end exactly on a block-record boundary and sizes below the 7-byte header) is executed (all triples for sources up to 70000 bytes, seeded samples above), 400k patterns quick; each result must be one conforming frame for the source with no trailing bytes; every source call index is failed in turn.",
+   text="For 96 (source, options) bases every triple of read-size classes (including sizes that end exactly on a block-record boundary and sizes below the 7-byte header) is executed (all triples for sources up to 70000 bytes, seeded samples above), 400k patterns quick; each result must be one conforming frame for the source with no trailing bytes; every source call index is failed in turn (persistent, with data, and transient on a fragmenting source); a reader reused with Reset after being abandoned mid-stream / read by one exact-length read / read to EOF / never read must again yield one conforming frame.",
    ref="6/C18"),
  "C20": dict(cat="exploration", tech="end-to-end runtime monitoring of the lz4c binary built against the working tree: files through compress/uncompress in scratch directories, output parsed by the independent frame parser, header bits checked against the usage text, bytes compared with the library Writer, mode bits compared",
    text="192 (quick) / 1500 (thorough) invocation cases over flag sets, file sizes on block boundaries, contents, mode bits, umasks, file and stdin/stdout operation and multi-file invocations.",
@@ -29,10 +29,10 @@ CHECKS = {
    text="Seed frames of the option combinations are corrupted by every single-bit flip of every structural field (with and without repairing the header checksum), block delete/duplicate/swap/insert/splice (with and without repairing the content checksum), payload flips (with and without repairing the block checksum), multi-bit flips, substitutions and hostile field values; each mutant is read with several concurrency/read-mode combinations. The evidence counts how many mutants the Reader accepted and that the oracle agreed on each.",
    ref="6/C05"),
  "C06": dict(cat="fault_enumeration", tech="crash-point enumeration: every prefix length of small frames (structural boundaries +-3 and seeded cuts for large ones) read by real Readers; verdict from the returned error and delivered bytes",
-   text="Every cut position 1..len-1 of 25 small seed frames (all option combinations that change the layout, legacy, dependent blocks) is executed against Readers with concurrency {1,2,4} through Read (buffered and direct) and WriteTo: no clean end of stream, delivered bytes are a prefix. For the three large frames cuts are enumerated at every field boundary +-3 plus seeded interior positions.",
+   text="Every cut position 1..len-1 of 26 small seed frames (all option combinations that change the layout, legacy, dependent blocks, a skippable frame in front; half of the readers get a source that also implements io.Seeker) is executed against Readers with concurrency {1,2,4} through Read (buffered and direct) and WriteTo: no clean end of stream, delivered bytes are a prefix. For the three large frames cuts are enumerated at every field boundary +-3 plus seeded interior positions.",
    ref="6/C06"),
- "C07": dict(cat="exploration", tech="hostile-input stress in child processes with monitors: panic recovery, process-death classification (stack overflow, fault), step budgets (runaway loop), peak-memory monitor (VmHWM + MemStats.Sys), first-word classifier, exact-skip check",
-   text="Random, mutated and grammar-built hostile streams and 10M-fold repetitions of a single field are fed to real Readers (concurrency 1 and 4, Read and WriteTo) inside child processes; a child that dies is itself the observation. Liveness is restated as bounded progress on finite budgeted sources. Memory growth is bounded by 64 MiB + (3*concurrency + 4 + 2*GOMAXPROCS) x the block maximum the input declares.",
+ "C07": dict(cat="exploration", tech="hostile-input stress in child processes with monitors: panic recovery, process-death classification (stack overflow, fault), step budgets (runaway loop), allocation-profile monitor (runtime.MemProfile at rate 1: size of every allocation made directly by library code), goroutine-stack growth monitor, first-word classifier, exact-skip check",
+   text="Random, mutated and grammar-built hostile streams and 10M-fold repetitions of a single field are fed to real Readers (concurrency 1 and 4, Read and WriteTo) inside child processes; a child that dies is itself the observation. Liveness is restated as bounded progress on finite budgeted sources. No allocation made directly by library code may exceed 2 x the block maximum the input itself declares + 256 KiB; goroutine stacks may not grow by more than 64 MiB (recursion proportional to the input); peak RSS is recorded as an observation only.",
    ref="6/C07"),
  "C17": dict(cat="exploration", tech="model-based runtime monitoring of call histories: exhaustive enumeration of all call sequences up to length 4 (thorough 5) over parameterised Writer and Reader alphabets plus seeded long and directed sequences, executed on the real objects under an executable lifecycle model, an in-process state-based deadlock monitor, budgeted sinks/sources and differential replay on fresh objects",
    text="170k histories (quick) are executed on sequential and concurrent objects. The model asserts only the clauses of the property; deadlock is decided from goroutine states (every goroutine inside the library parked, none runnable), runaway loops from call budgets. Sequences beyond the bound are sampled.",
